@@ -81,7 +81,7 @@ static void quad_T(const QuadC &c0, vf::Obs &o) {
   }
   auto grid = make_grid<T>(c.g);
   const auto m1 = make_spline<T, o1>(grid, c.m1);
-  auto grid2 = make_grid<T>(c.g);  // same points, separately constructed storage
+  auto grid2 = make_equal_grid<T>(c.g);  // same points, separately constructed storage, a zero point of the other sign
   const auto m2 = make_spline<T, o2>(c.distinct ? grid2 : grid, c.m2);
   if (c.distinct) o.cls("second-operand:equal-grid-in-distinct-object");
   std::vector<R> pts = c.g.points();
